@@ -198,7 +198,7 @@ Proof.
   { rewrite !(drawing_step_hdr _ _ E224). destruct (hdr opcode) as [[op nc] nreps].
     destruct (reps true (Z.to_nat nreps) op (one_of op nc) b) as [its0 r0] eqn:E. destruct r0 as [b1|]; [|discriminate].
     intros [= <- <- <-]. rewrite (reps_ext _ _ _ _ _ _ _ t (one_of_local op nc) E). reflexivity. }
-  unfold drawing_step. rewrite E224.
+  unfold drawing_step, draw_group. rewrite E224.
   destruct (opcode =? 225); [intros [= <- <- <-]; reflexivity|].
   assert (S : forall op k,
      (match draw_rep op k b with
@@ -226,7 +226,7 @@ Proof.
     destruct (reps true (Z.to_nat nreps) op (one_of op nc) b) as [its0 r0] eqn:E. destruct r0 as [b1|]; [discriminate|].
     intros [= <- _]. pose proof (reps_fail_prefix _ _ _ _ _ _ t (one_of_local op nc) E) as P.
     destruct (reps true (Z.to_nat nreps) op (one_of op nc) (b ++ t)) as [its1 [b2|]]; cbn [fst calls_of flat_map app] in *; exact P. }
-  unfold drawing_step. rewrite E224.
+  unfold drawing_step, draw_group. rewrite E224.
   destruct (opcode =? 225); [discriminate|].
   assert (S : forall op k,
      (match draw_rep op k b with
